@@ -314,6 +314,21 @@ func (e *SymEnv) Eval(x ast.Expr) Aff {
 			if a, ok := e.fields[path]; ok {
 				return a
 			}
+			// a whole-struct store to a prefix of the path (x.f = v; … x.f.g …): the field of the stored value
+			for i := len(sub) - 1; i > 0; i-- {
+				if sub[i] != '.' {
+					continue
+				}
+				if a, ok := e.fields[sub[:i]]; ok {
+					if at, single := a.SingleAtom(); single && !strings.HasPrefix(at, "zero:") {
+						if isPlainPath(at) {
+							return affAtom(at + sub[i:])
+						}
+						return affAtom("(" + at + ")" + sub[i:])
+					}
+					break
+				}
+			}
 			return affAtom(sub)
 		}
 	case *ast.IndexExpr:
@@ -1226,6 +1241,21 @@ func (sp *SymPath) Feasible() bool {
 			if la == ra && c.Op == token.NEQ {
 				return false
 			}
+			// the same two values found equal and unequal on one path
+			loopish := func(a string) bool { // a bare local may stand for a different value in the next loop round
+				return strings.HasPrefix(a, "L:") && !strings.ContainsAny(a, "#@")
+			}
+			if (c.Op == token.EQL || c.Op == token.NEQ) && !loopish(la) && !loopish(ra) {
+				k := la + "|" + ra
+				if ra < la {
+					k = ra + "|" + la
+				}
+				if c.Op == token.EQL {
+					pos["=="+k] = true
+				} else {
+					neg["=="+k] = true
+				}
+			}
 		}
 	}
 	for k := range pos {
@@ -1457,4 +1487,17 @@ func foldBitOp(op string, a, b int64) (int64, bool) {
 		}
 	}
 	return 0, false
+}
+
+// isPlainPath: an atom that is a field path (letters, digits, '_', ':', '.'), so that a further selector can be appended as is.
+func isPlainPath(a string) bool {
+	if a == "" {
+		return false
+	}
+	for _, r := range a {
+		if !(r == '.' || r == ':' || r == '_' || r >= '0' && r <= '9' || r >= 'a' && r <= 'z' || r >= 'A' && r <= 'Z') {
+			return false
+		}
+	}
+	return true
 }
